@@ -344,8 +344,26 @@ def _same(got, exp, kind, src):
     return type(got) is type(exp) and got == exp
 
 
+_TERM = []
+
+
+def _tidy_on_terminate():
+    """Pool workers are stopped with SIGTERM when another worker reports a failure; turn that into
+    SystemExit once per worker process so that the `finally` of the running case removes its temp dir."""
+    if _TERM:
+        return
+    _TERM.append(1)
+    import multiprocessing
+    import signal
+    if multiprocessing.current_process().name != "MainProcess":
+        def _exit(signum, frame):
+            raise SystemExit(143)
+        signal.signal(signal.SIGTERM, _exit)
+
+
 def check(case):
     from insights.client import config as cfgmod
+    _tidy_on_terminate()
     from insights.client.constants import InsightsConstants as constants
     from insights.specs.manifests import manifests
     m = meta()
@@ -740,7 +758,7 @@ def table(tier):
 
 SUBS = [
     Sub("random", check, strategy=strat_random, quick=1200, thorough=30000, workers_quick=2,
-        workers_thorough=16, budget_quick=50, budget_thorough=540),
+        workers_thorough=16, budget_quick=50, budget_thorough=480),
     Sub("table", check, enumerate=table, workers_quick=2, workers_thorough=16, budget_quick=50,
         budget_thorough=540),
 ]
